@@ -56,7 +56,14 @@ static inline WPair *wmit_deref(WMIt it) { __CPROVER_assert(it.pos == 0 || it.po
 #define WMAP_ASSIGN_MOVE(d, s) do { _Bool __h = (s)->has; WPair __w = (s)->w; (s)->has = nondet_bool() && (d) == (s) ? __h : 0; (d)->has = __h; (d)->w = __w; } while (0)
 #define WMAP_SWAP(a, b) do { _Bool __h = (a)->has; WPair __w = (a)->w; (a)->has = (b)->has; (a)->w = (b)->w; (b)->has = __h; (b)->w = __w; } while (0)
 #define WMAP_DTOR(m) ((void)0)
+/* erase: the entry and its callback list are destroyed */
+static inline void wmap_erase_it(WMap *m, WMIt it) { WM_GUARDED(m); __CPROVER_assert(it.m == m && it.pos != 2, "map::erase of a dereferenceable iterator"); if (it.pos == 0) m->has = 0; }
+static inline long wmap_erase_key(WMap *m, int key) { WM_GUARDED(m); if (key == g_K) { _Bool h = m->has; m->has = 0; return h; } return nondet_bool(); }
+#define WMAP_ERASE_IT(m, it) wmap_erase_it(m, it)
+#define WMAP_ERASE_KEY(m, key) wmap_erase_key(m, key)
+#define WMAP_EMPTY(m) (!(m)->has && nondet_bool())
 
+extern struct Mutex *g_dmutex;     /* the mutex of the dispatcher under proof (ghost) */
 /* ------------------------------------------------------------------ environment: the callback lists (contracts of unit callbacklist, as a call log) */
 /* (a havocked _Bool may hold any bit pattern: the stubs pin their ghost verdicts to 0 / 1) */
 #define B01(b) ((b) == 0 || (b) == 1)
@@ -64,17 +71,19 @@ static inline WPair *wmit_deref(WMIt it) { __CPROVER_assert(it.pos == 0 || it.po
 #define CONTRACT_CLT_append  __CPROVER_assigns(LOG) __CPROVER_ensures(CL_LOG(1) && g_cbid == a0->id && __CPROVER_return_value.p == g_rh)
 #define CONTRACT_CLT_prepend __CPROVER_assigns(LOG) __CPROVER_ensures(CL_LOG(2) && g_cbid == a0->id && __CPROVER_return_value.p == g_rh)
 #define CONTRACT_CLT_insert  __CPROVER_assigns(LOG) __CPROVER_ensures(CL_LOG(3) && g_cbid == a0->id && g_hp == a1->p && __CPROVER_return_value.p == g_rh)
-#define CONTRACT_CLT_remove  __CPROVER_assigns(LOG) __CPROVER_ensures(CL_LOG(4) && g_hp == a0->p && __CPROVER_return_value == g_rb)
+/* remove releases the removed callback (C08): the user's functor destructor runs inside it and may use the dispatcher
+ * again (e.g. it owns a ScopedRemover), so remove is called with no dispatcher mutex held, like the invoking calls below */
+#define CONTRACT_CLT_remove  __CPROVER_requires(g_dmutex->depth == 0) __CPROVER_assigns(LOG) __CPROVER_ensures(CL_LOG(4) && g_hp == a0->p && __CPROVER_return_value == g_rb)
 #define CONTRACT_CLT_empty   __CPROVER_assigns(LOG) __CPROVER_ensures(CL_LOG(5) && __CPROVER_return_value == g_rb)
 #define CONTRACT_CLT_ownsHandle __CPROVER_assigns(LOG) __CPROVER_ensures(CL_LOG(6) && g_hp == a0->p && __CPROVER_return_value == g_rb)
 /* these run user code (callbacks, visitors): they must be called with no dispatcher mutex held (re-entrancy, C02) */
-extern struct Mutex *g_dmutex;     /* the mutex of the dispatcher under proof (ghost) */
 #define NO_DLOCK (g_dmutex->depth == 0)
 #define CONTRACT_CLT_forEach   __CPROVER_requires(NO_DLOCK) __CPROVER_assigns(LOG) __CPROVER_ensures(CL_LOG(7) && g_fn == (void *)a0)
 #define CONTRACT_CLT_forEachIf __CPROVER_requires(NO_DLOCK) __CPROVER_assigns(LOG) __CPROVER_ensures(CL_LOG(8) && g_fn == (void *)a0 && __CPROVER_return_value == g_rb)
 #define CONTRACT_CLT_call      __CPROVER_requires(NO_DLOCK) __CPROVER_assigns(LOG) __CPROVER_ensures(B01(g_rb) && g_n == __CPROVER_old(g_n) + 1 && g_op == 9 && g_cl == f && g_seq == __CPROVER_old(g_seq) + 1 && g_cbid == a0->id && g_call_seq == g_seq)
 /* user getEvent policy: some fixed function of the argument VALUE */
-#define CONTRACT_Pol_getEvent __CPROVER_assigns() __CPROVER_ensures(__CPROVER_return_value == (a0->id ^ 0x2a))
+#define CONTRACT_Pol_getEvent __CPROVER_assigns() __CPROVER_ensures(__CPROVER_return_value == (a0.id ^ 0x2a))
+#define CONTRACT_Pol_getEvent2 __CPROVER_assigns() __CPROVER_ensures(__CPROVER_return_value == (*a0 ^ a1.id ^ 0x55))
 
 /* ------------------------------------------------------------------ window */
 #define ED_FRESH(s) (__CPROVER_is_fresh(s, sizeof(*(s))) && __CPROVER_pointer_equals((s)->eventCallbackListMap.guard, &(s)->listenerMutex) && __CPROVER_pointer_equals(g_dmutex, &(s)->listenerMutex))
@@ -174,7 +183,7 @@ extern int g_cb_n; extern VArg *g_cb_arg; extern _Bool g_cb_ret; extern Callback
   __CPROVER_ensures(g_rb ? (g_fe_n == __CPROVER_old(g_fe_n) && __CPROVER_return_value) \
                          : (g_fe_n == __CPROVER_old(g_fe_n) + 1 && g_fe_list == &self->filterList && g_fe_args == args && __CPROVER_return_value == g_fe_ret))
 #define CONTRACT_MF_removeFilter \
-  __CPROVER_requires(__CPROVER_is_fresh(self, sizeof(MF)) && __CPROVER_is_fresh(filterHandle, sizeof(Handle)) && g_n >= 0 && g_n < 1000 && g_seq < (1UL << 60)) \
+  __CPROVER_requires(__CPROVER_is_fresh(self, sizeof(MF)) && __CPROVER_is_fresh(filterHandle, sizeof(Handle)) && __CPROVER_pointer_equals(g_dmutex, &self->base_ED.listenerMutex) && self->base_ED.listenerMutex.depth == 0 && g_n >= 0 && g_n < 1000 && g_seq < (1UL << 60)) \
   __CPROVER_assigns(LOG) \
   __CPROVER_ensures(CL_LOG_ED(4) && g_cl == &self->filterList && g_hp == filterHandle->p && __CPROVER_return_value == g_rb)
 
@@ -195,6 +204,7 @@ extern int g_cb_n; extern VArg *g_cb_arg; extern _Bool g_cb_ret; extern Callback
 static inline void dd_log(int key, int arg) { g_dd_n++; g_dd_key = key; g_dd_arg = arg; }
 #define FN_ENTRY_ED_directDispatch dd_log(*e, args.id)
 #define FN_ENTRY_EDX_directDispatch dd_log(*e, args.id)
+#define FN_ENTRY_EDY_directDispatch dd_log(*e, args.id)
 #define CONTRACT_ED_directDispatch \
   __CPROVER_requires(ED_FRESH(self) && __CPROVER_is_fresh(e, sizeof(int)) && ED_PRE(self) && g_dd_n >= 0 && g_dd_n < 1000 && g_mix_n >= 0 && g_mix_n < 1000) \
   __CPROVER_assigns(ED_FRAME(self), DD_LOG, g_mix_n, g_mix_ret, g_mix_postid, g_mix_self, g_mix_seq) \
@@ -214,6 +224,16 @@ static inline void dd_log(int key, int arg) { g_dd_n++; g_dd_key = key; g_dd_arg
   __CPROVER_requires(ED_FRESH(self) && __CPROVER_is_fresh(first, sizeof(int)) && ED_PRE(self) && g_dd_n >= 0 && g_dd_n < 1000) \
   __CPROVER_assigns(ED_FRAME(self), DD_LOG) \
   __CPROVER_ensures(g_dd_n == __CPROVER_old(g_dd_n) + 1 && g_dd_key == __CPROVER_old(*first) && g_dd_arg == __CPROVER_old(args.id))
+
+#define CONTRACT_EDY_directDispatch \
+  __CPROVER_requires(ED_FRESH(self) && __CPROVER_is_fresh(e, sizeof(int)) && ED_PRE(self) && g_dd_n >= 0 && g_dd_n < 1000) \
+  __CPROVER_assigns(ED_FRAME(self), DD_LOG) \
+  DD_POST(0)
+/* exclude-event form with a user getEvent(first, args...) policy: the policy decides, not the first argument */
+#define CONTRACT_EDY_dispatch__int \
+  __CPROVER_requires(ED_FRESH(self) && __CPROVER_is_fresh(first, sizeof(int)) && ED_PRE(self) && g_dd_n >= 0 && g_dd_n < 1000) \
+  __CPROVER_assigns(ED_FRAME(self), DD_LOG) \
+  __CPROVER_ensures(g_dd_n == __CPROVER_old(g_dd_n) + 1 && g_dd_key == (__CPROVER_old(*first) ^ __CPROVER_old(args.id) ^ 0x55) && g_dd_arg == __CPROVER_old(args.id))
 
 /* ------------------------------------------------------------------ C10: copies, moves, swap of the dispatcher (the lists themselves: unit callbacklist) */
 #define ED2_FRESH(a, b) (__CPROVER_is_fresh(a, sizeof(ED)) && __CPROVER_is_fresh(b, sizeof(ED)))
